@@ -32,6 +32,7 @@ type Case struct {
 	c    SelCase
 	recv func(*Sel)
 	send func()
+	val  any // send cases: the value (used when the channel is unbuffered and the model carries the value)
 }
 
 // RecvCase describes `case … <-ch`.
@@ -44,7 +45,8 @@ func RecvCase[T any](ch <-chan T) Case {
 func SendCase[T any](ch chan<- T, v T) Case {
 	k := *(*uintptr)(unsafe.Pointer(&ch))
 	if ch != nil && cap(ch) == 0 {
-		Unsupported("send on unbuffered channel in select")
+		// unbuffered: the case is ready when a receiver is waiting; the model hands it the value
+		return Case{c: SelCase{Send: true, Key: k, Ref: ch}, send: func() {}, val: v}
 	}
 	return Case{c: SelCase{Send: true, Key: k, Cap: cap(ch), Len: len(ch), Ref: ch}, send: func() { ch <- v }}
 }
@@ -79,6 +81,7 @@ func Select(hasDefault bool, cases ...Case) *Sel {
 	for i := range cases {
 		op.Cases[i] = cases[i].c
 	}
+	op.SendVal = func(i int) any { return cases[i].val }
 	if !Do(op) {
 		sel.Index = -2
 		return sel
@@ -87,6 +90,9 @@ func Select(hasDefault bool, cases ...Case) *Sel {
 	if sel.Index >= 0 {
 		c := &cases[sel.Index]
 		if c.c.Send {
+			if c.c.Cap == 0 && S != nil && S.chClosed(c.c.Key) {
+				panic("send on closed channel")
+			}
 			c.send()
 		} else if op.Offer != nil {
 			sel.val, sel.ok = op.Offer.Val, true
